@@ -523,6 +523,22 @@ def run(ctx):
                                     viol("native-cell-angles|%s" % base, "the cell angles in the .%s file are %s for %s" % (ext, nang, t.unitcell_angles[f]), rp)
                                     break
 
+        # residue numbers beyond the five columns of a .gro / four of a .pdb file: the files must stay readable, every atom with its coordinates
+        for ext_ in ("gro", "pdb"):
+            tb = md.Topology(); cb = tb.add_chain()
+            for i_, rs_ in enumerate([99998, 99999, 100000, 100001, 1234567]):
+                rb = tb.add_residue("ALA", cb, rs_)
+                tb.add_atom("CA", md.element.carbon, rb); tb.add_atom("CB", md.element.carbon, rb)
+            xb = (np.arange(30, dtype=np.float32).reshape(1, 10, 3) / 8)
+            pb = os.path.join(scratch, "bigres." + ext_)
+            ctx.case(None, ("big-resSeq", ext_)); ctx.count("files with residue numbers beyond the field")
+            try:
+                md.Trajectory(xb, tb).save(pb)
+                lb = md.load(pb)
+                if lb.n_atoms != 10 or np.abs(lb.xyz - xb).max() > 2e-3 or [a.name for a in lb.topology.atoms] != ["CA", "CB"] * 5 or lb.n_residues != 5:
+                    viol("resSeq|beyond-field|" + ext_, ".%s with residue numbers up to 1234567 reloads as %d atoms in %d residues, coordinates off by %.3g" % (ext_, lb.n_atoms, lb.n_residues, float(np.abs(lb.xyz - xb).max()) if lb.xyz.shape == xb.shape else -1), dict(ext=ext_))
+            except Exception as e:  # noqa: BLE001
+                viol("resSeq|beyond-field|" + ext_, "a .%s file written for residue numbers up to 1234567 cannot be read back: %s: %s" % (ext_, type(e).__name__, str(e)[:120]), dict(ext=ext_))
         overflow_stream(ctx, md, scratch, viol)
         model = ctx.driver.query(reqs) if ctx.driver_ok and reqs else [None] * len(reqs)
         for (what, k, ext, data, rp), m in zip(meta, model):
